@@ -153,8 +153,49 @@ def _confinement_guard(f: FuncInfo, call: ast.Call) -> Optional[str]:
             resolved = [d for d in defs if "realpath(" in unparse(d) or ".resolve(" in unparse(d)]
             inline = t.count("realpath(") + t.count(".resolve(")
             if len(resolved) + inline >= 2 and not any(("abspath(" in unparse(d) or "normpath(" in unparse(d)) and "realpath(" not in unparse(d) for d in defs):
+                if not _bound_to_sink(f, n.ast, call):
+                    # a containment test exists, but not of the path that is opened against the directory it was joined to
+                    return None
                 return t
     return None
+
+
+def _single_def(f: FuncInfo, name: str) -> Optional[ast.expr]:
+    ds = [a.value for a in walk_no_nested(f.node) if isinstance(a, ast.Assign) and any(isinstance(tg, ast.Name) and tg.id == name for tg in a.targets)]
+    return ds[0] if len(ds) == 1 else None
+
+
+def _realpath_arg(f: FuncInfo, e: ast.AST) -> Optional[ast.AST]:
+    """e is realpath(X) (directly, or a name defined once as realpath(X)): X."""
+    if isinstance(e, ast.Name):
+        d = _single_def(f, e.id)
+        return _realpath_arg(f, d) if d is not None and not isinstance(d, ast.Name) else None
+    if isinstance(e, ast.Call) and (dotted(e.func) or "").endswith("realpath") and len(e.args) == 1:
+        return e.args[0]
+    return None
+
+
+def _bound_to_sink(f: FuncInfo, test: ast.AST, call: ast.Call) -> bool:
+    """The containment test `realpath(P).startswith(realpath(D) + os.sep)` is about the very path P handed to the sink, and D
+    is the directory P was joined to (P = os.path.join(D, ...))."""
+    sw = [c for c in ast.walk(test) if isinstance(c, ast.Call) and isinstance(c.func, ast.Attribute) and c.func.attr == "startswith" and c.args]
+    if not sw:
+        return True  # commonpath / is_relative_to spellings: not analysed further
+    c = sw[0]
+    cand = _realpath_arg(f, c.func.value)
+    pre = c.args[0]
+    if isinstance(pre, ast.BinOp) and isinstance(pre.op, ast.Add):
+        pre = pre.left
+    dire = _realpath_arg(f, pre)
+    if cand is None or dire is None or not call.args:
+        return False
+    sink = call.args[0]
+    if unparse(cand) != unparse(sink):
+        return False
+    pdef = _single_def(f, sink.id) if isinstance(sink, ast.Name) else sink
+    if not (isinstance(pdef, ast.Call) and (dotted(pdef.func) or "").endswith("path.join") and pdef.args):
+        return False
+    return unparse(pdef.args[0]) == unparse(dire)
 
 
 def run(model: Model, rep: Report) -> None:
